@@ -1236,3 +1236,192 @@ Lemma example_utf8_lemma :
   map label_name_valid [of_string "x/y"; [255]; []; [237; 160; 128]; [226; 130; 172]; [240; 159; 152; 128]; [192; 128]; [244; 144; 128; 128]] =
   [true; false; false; false; true; true; false; false].
 Proof. vm_compute. reflexivity. Qed.
+
+(* ------------------------------------------------------------------------------------ *)
+(* histories: builder methods and Push/Add/Delete calls in any interleaving on one Pusher *)
+(* ------------------------------------------------------------------------------------ *)
+(* one step of a Pusher's life; a call sees the grouping map in its own iteration order *)
+Inductive hop := HB (b : bop) | HC (order : list (str * str)) (c : call).
+
+(* every call of the history passes the specification checker, which is given the builder calls made
+   BEFORE that call (so a Grouping between two requests must be visible in the second request) *)
+Fixpoint hist_ok (host pre job : str) (ops : list bop) (p : pusher) (h : list hop) : bool :=
+  match h with
+  | [] => true
+  | HB b :: r => hist_ok host pre job (ops ++ [b]) (apply_bop p b) r
+  | HC order c :: r =>
+      let (p1, o) := do_call p order c in
+      spec_call_ok pre job ops c (observe host o) && hist_ok host pre job ops p1 r
+  end.
+
+(* the recorded error after every step is the first failure among the builder calls so far *)
+Fixpoint hist_err_ok (job : str) (ops : list bop) (p : pusher) (h : list hop) : bool :=
+  match h with
+  | [] => true
+  | HB b :: r => (match p_err (apply_bop p b), spec_first_error job (ops ++ [b]) with
+                  | None, None => true | Some x, Some y => berr_eqb x y | _, _ => false end)
+                 && hist_err_ok job (ops ++ [b]) (apply_bop p b) r
+  | HC order c :: r => hist_err_ok job ops (fst (do_call p order c)) r
+  end.
+
+(* side conditions on a history: label names/values of Grouping calls, iteration orders are permutations *)
+Fixpoint hist_wf (p : pusher) (h : list hop) : Prop :=
+  match h with
+  | [] => True
+  | HB b :: r => (match b with BGrouping n v => name_ok n /\ n <> s_job /\ bytes v | _ => True end) /\
+                 hist_wf (apply_bop p b) r
+  | HC order c :: r => Permutation order (p_grouping p) /\ hist_wf (fst (do_call p order c)) r
+  end.
+
+(* the configuration fields other than the header map *)
+Definition same_cfg (p q : pusher) : Prop :=
+  p_err p = p_err q /\ p_url p = p_url q /\ p_job p = p_job q /\ p_grouping p = p_grouping q /\
+  p_auth p = p_auth q /\ p_fmt p = p_fmt q.
+
+Lemma same_cfg_bop p q o : same_cfg p q -> same_cfg (apply_bop p o) (apply_bop q o).
+Proof.
+  intros (A & B & C & D & F & G). unfold same_cfg.
+  destruct o as [n v|f| |h|u pw|f]; simpl; rewrite <- ?A, <- ?D.
+  - destruct (p_err p) eqn:E; [repeat split; simpl; congruence|].
+    destruct (label_name_valid n); simpl; repeat split; simpl; congruence.
+  - destruct (p_err p) eqn:E; [repeat split; simpl; congruence|]. destruct f; simpl; repeat split; simpl; congruence.
+  - repeat split; assumption.
+  - repeat split; assumption.
+  - repeat split; assumption.
+  - repeat split; assumption.
+Qed.
+
+Lemma same_cfg_call p q order c : same_cfg p q -> same_cfg (fst (do_call p order c)) q.
+Proof.
+  intros (A & B & C & D & F & G). destruct (do_call_fields p order c) as (F1 & F2 & F3 & F4 & F5 & F6 & _).
+  unfold same_cfg. repeat split; congruence.
+Qed.
+
+Definition hdr_inv (ops : list bop) (p : pusher) : Prop :=
+  forall k vs, map_get k (spec_header ops) = Some vs -> k <> s_content_type -> k <> s_authorization ->
+               map_get k (match p_hdr p with Some h => h | None => [] end) = Some vs.
+
+Lemma spec_last_app {A} (f : bop -> option A) a b :
+  spec_last f (a ++ b) = match spec_last f b with Some x => Some x | None => spec_last f a end.
+Proof.
+  induction a as [|o r IH]; simpl; [destruct (spec_last f b); reflexivity|].
+  rewrite IH. destruct (spec_last f b); reflexivity.
+Qed.
+
+Lemma hdr_inv_bop ops p o : hdr_inv ops p -> hdr_inv (ops ++ [o]) (apply_bop p o).
+Proof.
+  unfold hdr_inv, spec_header. intros H k vs. rewrite spec_last_app.
+  destruct o as [n v|f| |h|u pw|f]; simpl.
+  - destruct (p_err p); [apply H|]. destruct (label_name_valid n); apply H.
+  - destruct (p_err p); [apply H|]. destruct f; apply H.
+  - apply H.
+  - destruct h; intros G _ _; [exact G|discriminate].
+  - apply H.
+  - apply H.
+Qed.
+
+Lemma hdr_inv_call ops p order c : hdr_inv ops p -> hdr_inv ops (fst (do_call p order c)).
+Proof.
+  intros H k vs G N1 N2. destruct (do_call_fields p order c) as (_ & _ & _ & _ & _ & _ & F7).
+  rewrite (F7 k N1 N2). apply H; assumption.
+Qed.
+
+Lemma groupings_ok_snoc ops b :
+  groupings_ok ops -> (match b with BGrouping n v => name_ok n /\ n <> s_job /\ bytes v | _ => True end) ->
+  groupings_ok (ops ++ [b]).
+Proof.
+  intros H Hb n v I. apply in_app_or in I. destruct I as [I|[I|[]]]; [apply H; exact I|]. subst b. exact Hb.
+Qed.
+
+Lemma run_builder_snoc p ops b : run_builder p (ops ++ [b]) = apply_bop (run_builder p ops) b.
+Proof. unfold run_builder. rewrite fold_left_app. reflexivity. Qed.
+
+Section Histories.
+  Variables (host pre url job : str).
+  Hypothesis Hurl : p_url (new url job) = host ++ pre.
+  Hypothesis Hjob : bytes job.
+
+  (* the state reached after the builder calls `ops` (and any calls in between) *)
+  Definition reached (ops : list bop) (p : pusher) : Prop :=
+    same_cfg p (run_builder (new url job) ops) /\ hdr_inv ops p /\ groupings_ok ops.
+
+  Lemma reached_agrees ops p : reached ops p -> agrees host pre job ops p.
+  Proof.
+    intros ((A & B & C & D & F & G) & HI & HG).
+    set (q := run_builder (new url job) ops) in *.
+    assert (Q : agrees host pre job ops q).
+    { apply builder_agrees; try assumption. unfold q. destruct (run_builder_job_url ops (new url job)) as (_ & U).
+      rewrite U. exact Hurl. }
+    destruct Q. constructor.
+    - congruence.
+    - congruence.
+    - rewrite A, C, D. assumption.
+    - rewrite A, D. assumption.
+    - exact HI.
+    - congruence.
+    - congruence.
+  Qed.
+
+  Lemma reached_bop ops p b : reached ops p ->
+    (match b with BGrouping n v => name_ok n /\ n <> s_job /\ bytes v | _ => True end) ->
+    reached (ops ++ [b]) (apply_bop p b).
+  Proof.
+    intros (S & HI & HG) Hb. split; [|split].
+    - rewrite run_builder_snoc. apply same_cfg_bop. exact S.
+    - apply hdr_inv_bop. exact HI.
+    - apply groupings_ok_snoc; assumption.
+  Qed.
+
+  Lemma reached_call ops p order c : reached ops p -> reached ops (fst (do_call p order c)).
+  Proof.
+    intros (S & HI & HG). split; [|split]; [apply same_cfg_call; exact S|apply hdr_inv_call; exact HI|exact HG].
+  Qed.
+
+  Lemma hist_ok_reached h : forall ops p, reached ops p -> hist_wf p h -> hist_ok host pre job ops p h = true.
+  Proof.
+    induction h as [|[b|order c] r IH]; intros ops p R W; [reflexivity| |].
+    - simpl in *. destruct W as (Wb & Wr). apply IH; [apply reached_bop; assumption|exact Wr].
+    - simpl in *. destruct W as (Wo & Wr).
+      pose proof (call_satisfies_spec host pre job ops p order c (reached_agrees ops p R) Wo) as S.
+      pose proof (reached_call ops p order c R) as R'.
+      destruct (do_call p order c) as [p1 o]. simpl in *. rewrite S. simpl. apply IH; assumption.
+  Qed.
+
+  Lemma hist_err_ok_reached h : forall ops p, same_cfg p (run_builder (new url job) ops) -> hist_err_ok job ops p h = true.
+  Proof.
+    induction h as [|[b|order c] r IH]; intros ops p S; [reflexivity| |].
+    - simpl. assert (S' : same_cfg (apply_bop p b) (run_builder (new url job) (ops ++ [b])))
+        by (rewrite run_builder_snoc; apply same_cfg_bop; exact S).
+      rewrite (IH _ _ S'), andb_true_r. destruct S' as (A & _). rewrite A, builder_error_is_first_lemma.
+      destruct (spec_first_error job (ops ++ [b])); [apply berr_eqb_refl|reflexivity].
+    - simpl. apply IH. apply same_cfg_call. exact S.
+  Qed.
+
+  Lemma reached_new : reached [] (new url job).
+  Proof.
+    split; [|split].
+    - unfold same_cfg. simpl. repeat split; reflexivity.
+    - intros k vs G. discriminate.
+    - intros n v [].
+  Qed.
+
+  Lemma history_satisfies_spec_lemma h :
+    hist_wf (new url job) h ->
+    hist_ok host pre job [] (new url job) h = true /\ hist_err_ok job [] (new url job) h = true.
+  Proof.
+    intros W. split; [apply hist_ok_reached; [exact reached_new|exact W]|].
+    apply hist_err_ok_reached. apply reached_new.
+  Qed.
+End Histories.
+
+(* a Grouping between two requests changes the key of the second one (same number of labels) *)
+Lemma example_history_lemma :
+  let h := [HB (BGrouping (of_string "zone") (of_string "a")); HC [(of_string "zone", of_string "a")] (mkC KPush (Some []) (TStatus 200));
+            HB (BGrouping (of_string "zone") (of_string "b/c")); HC [(of_string "zone", of_string "b/c")] (mkC KDelete None (TStatus 202))] in
+  hist_ok (of_string "http://h") [] (of_string "j") [] (new (of_string "h") (of_string "j")) h = true /\
+  map (fun o => match o_req o with Some r => url_path (r_url r) | None => [] end)
+      (snd (run (new (of_string "h") (of_string "j"))
+                [OB (BGrouping (of_string "zone") (of_string "a")); OC (mkC KPush (Some []) (TStatus 200));
+                 OB (BGrouping (of_string "zone") (of_string "b/c")); OC (mkC KDelete None (TStatus 202))])) =
+    [of_string "/metrics/job/j/zone/a"; of_string "/metrics/job/j/zone@base64/Yi9j"].
+Proof. vm_compute. split; reflexivity. Qed.
